@@ -2,7 +2,11 @@ use std::convert::{TryFrom, TryInto};
 use std::ops::RangeToInclusive;
 
 use bytes::Buf;
+#[cfg(not(quickwit_oss_mrecordlog_verif))]
 use tracing::error;
+
+#[cfg(quickwit_oss_mrecordlog_verif)]
+use crate::verif_noop::error;
 
 use crate::error::MultiRecordCorruption;
 use crate::Serializable;
